@@ -15,5 +15,5 @@ VERIF_REPO=$wt VERIF_OUT=$out /verif/run.sh $prop $tier > /tmp/vt/log-$id-$prop.
 nv=$(grep -c '^VIOLATION' /tmp/vt/log-$id-$prop.txt)
 if [ $rc -eq 1 ] && [ $nv -gt 0 ]; then echo "DETECTED $id by $prop $tier ($nv violation lines): $(grep '^VIOLATION' /tmp/vt/log-$id-$prop.txt | head -1 | cut -c1-300)";
 elif [ $rc -eq 0 ]; then echo "MISSED $id by $prop $tier"; else echo "ERROR rc=$rc $id $prop"; tail -5 /tmp/vt/log-$id-$prop.txt; fi
-git -C /repo worktree remove --force $wt; rm -rf $out /verif/harness/bin/*alt.* /verif/harness/bin/vcheck-*-alt.* 2>/dev/null
+git -C /repo worktree remove --force $wt; hh=$(echo "$wt" | md5sum | cut -c1-8); rm -rf $out /verif/harness/bin/*alt.$hh* /verif/harness/bin/vcheck-*-alt.$hh* /verif/harness/bin/overlay-*-alt.$hh* 2>/dev/null
 exit 0
